@@ -1,9 +1,10 @@
 #!/bin/sh
 # usage: tools/run_all.sh [tier] [seed]  -- runs every registered check, prints one line per check
 cd "$(dirname "$0")/.." || exit 2
-TIER="${1:-quick}"; SEED="${2:-1}"
+TIER="${1:-quick}"; SEED="${2:-1}"; WORST=0
 for p in $(python3 -c "import json;print(' '.join(c['property_id'] for c in json.load(open('MANIFEST.json'))['checks']))"); do
   S=$(date +%s); OUT=$(VERIF_SEED=$SEED ./check $p $TIER 2>&1); RC=$?; E=$(date +%s)
   echo "$p rc=$RC $((E-S))s $(echo "$OUT" | tail -1)"
-  [ $RC -ne 0 ] && echo "$OUT" | grep -E "VIOLATION|HARNESS|bucket" | head -5
+  if [ $RC -ne 0 ]; then echo "$OUT" | grep -E "VIOLATION|HARNESS|bucket" | head -5; [ $RC -gt $WORST ] && WORST=$RC; fi
 done
+exit $WORST
